@@ -181,7 +181,8 @@ def run(ctx):
                 meta.append(("mutating-callback", "%s / %s n=%d" % (it[:50], mut, n)))
     for h in HOSTILE:
         for sz in ((SIZES if ctx.tier != "quick" else ["3", "4294967295", "9007199254740991", "-1", "NaN"]) if re.search(r"\bN\b", h) else ["0"]):
-            progs.append("let r; try { r = 'v' + String(%s); } catch (e) { r = 'caught:' + (e && (e as any).name); } String(r).slice(0, 40)" % re.sub(r"\bN\b", "(" + sz + ")", h))
+            # the thrown value may itself be hostile (a proxy whose get trap throws): looking at it is guarded too
+            progs.append("let r; try { r = 'v' + String(%s); } catch (e) { let nm: any = 'opaque'; try { nm = e && (e as any).name; } catch (_) { } r = 'caught:' + nm; } String(r).slice(0, 40)" % re.sub(r"\bN\b", "(" + sz + ")", h))
             meta.append(("hostile", h[:70] + " N=" + sz))
     outs = common.harness(["prog"], [p.replace("\n", "\\n") for p in progs], timeout=90, chunk=4)
     hist = {"caught_range": 0, "caught_other": 0, "values": 0}
